@@ -1800,6 +1800,13 @@ func (s *BgpServer) handleFSMMessage(peer *peer, e *fsmMsg) {
 				peer.fsm.gConf.Config.RouterId, conf.Transport.State.RemoteAddress, conf.Transport.State.LocalAddress)
 			peer.peerInfo.Store(peerInfo)
 
+			// Publish the established state before the initial table transfer.
+			// The FSM loop only stores the new state after this callback returns; an
+			// update propagated between the end of the transfer below and that store
+			// would find the peer not established, skip it, and the route would stay
+			// missing on the peer until it changes again.
+			peer.fsm.state.Store(nextState)
+
 			neighborAddress := conf.State.NeighborAddress
 			deferralExpiredFunc := func(family bgp.Family, deferralTime time.Duration) func() {
 				//nolint: errcheck // ignore error
